@@ -77,6 +77,7 @@ type Sched struct {
 	timers   []*vtimer
 	Fail     []Failure // invariant failures raised during the run
 	userData any
+	Metrics  map[string]int64
 	enBuf    []*Thread
 	rng      uint64
 }
@@ -410,6 +411,20 @@ func Observe(format string, a ...any) {
 	S.Obs = append(S.Obs, m)
 	if S.Opt.Trace {
 		S.TraceLog = append(S.TraceLog, "   obs: "+m)
+	}
+}
+
+// Metric records a named measurement of this execution (the explorer keeps the maximum over all
+// executions); used for vacuity guards such as "some stream delivered >= 2 notifications".
+func Metric(name string, v int64) {
+	if S == nil {
+		return
+	}
+	if S.Metrics == nil {
+		S.Metrics = map[string]int64{}
+	}
+	if v > S.Metrics[name] {
+		S.Metrics[name] = v
 	}
 }
 
